@@ -34,6 +34,10 @@ package restorer
 // reported, and every reported error names X (location or text) - no other
 // file is blamed.
 //
+// Everything is run for four option sets of the Restorer that restores and then
+// verifies (as cmd/restic does): default, --overwrite if-changed, --overwrite
+// if-newer, --sparse.
+//
 // Not covered: FIFOs / devices in place of a file (opening a FIFO read-only
 // blocks; outside the statement), simultaneous damage of several files.
 
@@ -48,6 +52,7 @@ import (
 	"testing"
 	"time"
 
+	"github.com/restic/restic/internal/data"
 	"github.com/restic/restic/internal/repository"
 	"github.com/restic/restic/internal/restic"
 	"github.com/restic/restic/internal/verifshim/vh"
@@ -232,7 +237,7 @@ type verifC21Report struct {
 func TestVerif_C21(t *testing.T) {
 	r := vh.Start(t, "C21")
 	defer r.Finish()
-	r.Rule("fixed history (restore of a 5-file snapshot) x every enumerated single damage (byte flips and truncations at every offset of small files / first+last 64 bytes and blob boundaries +-2 of large ones, extensions, blob swap, replacement by dir/symlink, removal) x 2 error handlers; one real VerifyFiles per element; non-trivial = the tree really differs from the snapshot when VerifyFiles runs")
+	r.Rule("fixed history (restore of a 5-file snapshot) x every enumerated single damage (byte flips and truncations at every offset of small files / first+last 64 bytes and blob boundaries +-2 of large ones, extensions, blob swap, replacement by dir/symlink, removal) x 2 error handlers x 4 restorer option sets (default, overwrite if-changed, overwrite if-newer, sparse); one real VerifyFiles per element; non-trivial = the tree really differs from the snapshot when VerifyFiles runs")
 	r.Assume("the mtime of a damaged regular file is reset to the snapshot mtime", "one damaged file at a time")
 
 	ctx := context.Background()
@@ -253,12 +258,25 @@ func TestVerif_C21(t *testing.T) {
 		"sub": Dir{ModTime: verifC21MTime, Nodes: map[string]Node{"two": mk(files[4])}},
 	}}, noopGetGenericAttributes)
 
-	target := filepath.Join(r.Scratch, "target")
 	outside := filepath.Join(r.Scratch, "outside")
 	if err := os.MkdirAll(outside, 0o755); err != nil {
 		t.Fatal(err)
 	}
-	res := NewRestorer(repo, sn, Options{})
+	// cmd/restic verifies with the Restorer object (and therefore the options) it restored with
+	for _, o := range []struct {
+		name string
+		opts Options
+	}{{"", Options{}}, {"overwrite=if-changed|", Options{Overwrite: OverwriteIfChanged}}, {"overwrite=if-newer|", Options{Overwrite: OverwriteIfNewer}}, {"sparse|", Options{Sparse: true}}} {
+		if done := verifC21Run(t, r, ctx, repo, sn, files, o.name, o.opts, outside); done {
+			return
+		}
+	}
+}
+
+// verifC21Run enumerates all damages for one option set; it reports whether the run has to stop (cap, broken undo).
+func verifC21Run(t *testing.T, r *vh.Run, ctx context.Context, repo restic.Repository, sn *data.Snapshot, files []*verifC21File, oname string, opts Options, outside string) (stop bool) {
+	target := filepath.Join(r.Scratch, "target-"+strings.Trim(strings.ReplaceAll(oname, "=", "-"), "|"))
+	res := NewRestorer(repo, sn, opts)
 	count, err := res.RestoreTo(ctx, target)
 	if err != nil || count != uint64(len(files)) {
 		t.Fatalf("fixture restore failed: count=%d err=%v", count, err)
@@ -293,17 +311,17 @@ func TestVerif_C21(t *testing.T) {
 			n, rerr, reports, panicked, pmsg := verify(counting)
 			if panicked || rerr != nil || len(reports) != 0 || n != len(files) {
 				ok = false
-				r.Violationf(ck, "C21|untouched|reported", map[string]any{"where": where, "counting_handler": counting, "err": fmt.Sprint(rerr), "reports": fmt.Sprint(reports), "verified": n, "panic": pmsg},
+				r.Violationf(ck, "C21|"+oname+"untouched|reported", map[string]any{"where": where, "counting_handler": counting, "err": fmt.Sprint(rerr), "reports": fmt.Sprint(reports), "verified": n, "panic": pmsg},
 					"VerifyFiles on the untouched restored tree (%s): err=%v, %d errors reported, %d of %d files verified", where, rerr, len(reports), n, len(files))
 			}
 		}
 		return ok
 	}
 
-	if r.Case("untouched") {
+	if r.Case(oname + "untouched") {
 		r.Eval(1)
 		r.Trace(1)
-		if clean("untouched", "initial") {
+		if clean(oname+"untouched", "initial") {
 			r.Outcome("clean")
 		}
 	}
@@ -313,17 +331,17 @@ func TestVerif_C21(t *testing.T) {
 		path := filepath.Join(target, f.rel)
 		dmg := verifC21Damages(f, r.Thorough())
 		for c0 := 0; c0 < len(dmg); c0 += chunk {
-			ck := fmt.Sprintf("%s|%d", f.rel, c0/chunk)
+			ck := fmt.Sprintf("%s%s|%d", oname, f.rel, c0/chunk)
 			if !r.Case(ck) {
 				continue
 			}
 			if r.Expired() {
-				return
+				return true
 			}
 			for _, d := range dmg[c0:min(c0+chunk, len(dmg))] {
-				id := f.rel + "|" + d.name
+				id := oname + f.rel + "|" + d.name
 				// violation identity: file + damage kind (+ blob the offset lies in); the exact offset is in the detail
-				vid := f.rel + "|" + verifC21Kind(f, d.name)
+				vid := oname + f.rel + "|" + verifC21Kind(f, d.name)
 				if err := d.apply(path, f, outside); err != nil {
 					t.Fatalf("fixture: damage %s: %v", id, err)
 				}
@@ -338,7 +356,7 @@ func TestVerif_C21(t *testing.T) {
 				}
 				r.Eval(1)
 				r.Nontrivial(id)
-				detail := map[string]any{"file": f.rel, "damage": d.name, "size": len(f.all), "blob_sizes": verifC21Sizes(f)}
+				detail := map[string]any{"options": oname, "file": f.rel, "damage": d.name, "size": len(f.all), "blob_sizes": verifC21Sizes(f)}
 				for _, counting := range []bool{true, false} {
 					n, rerr, reports, panicked, pmsg := verify(counting)
 					r.Trace(1)
@@ -390,10 +408,12 @@ func TestVerif_C21(t *testing.T) {
 			}
 			// the undo really restored the tree (guards the harness against false alarms/misses)
 			if !clean(ck, "after undo of "+ck) {
-				return
+				return true
 			}
 		}
 	}
+	_ = os.RemoveAll(target)
+	return false
 }
 
 // verifC21Kind maps "flip@20001^ff" to "flip-in-blob1" etc.
